@@ -152,3 +152,93 @@ def run_bounded(run, prop, script_name, tier, timeout=900):
             continue
         reported.add(cls)
         run.violation("bounded/" + str(cls), {"bounded_case": f, "note": "run-time contract failed on the real function (bounded tier)"}, True)
+
+
+# ---------------------------------------------------------------------------------------------------------
+# pure library models shared by the identity specs (json / hashlib / uuid): uninterpreted functions of *content*
+# ---------------------------------------------------------------------------------------------------------
+def _content_args(h, with_order):
+    arrs = [h.ddom, h.dval, h.dlen, h.larr, h.llen, h.sdom]
+    if with_order:
+        arrs.append(h.dord)
+    return arrs
+
+
+def json_dumps_model(I, args, kwargs):
+    """json.dumps(obj, sort_keys=..., ...): with sort_keys=True a function of the mappings' contents only; without it the
+    key order of every mapping is an additional argument.  Assumed: deterministic, raises TypeError on non-JSON values."""
+    st = I.st
+    obj = I.lift(args[0])
+    sk = kwargs.get("sort_keys")
+    sorted_keys = sk is not None and z3.is_true(z3.simplify(I.truthy(sk)))
+    arrs = _content_args(st.h, not sorted_keys)
+    f = z3.Function("JsonSorted" if sorted_keys else "JsonOrdered", V, *[a.sort() for a in arrs], z3.StringSort())
+    models.assume_lib("json.dumps", "deterministic function of the value's content (plus mapping order unless sort_keys=True)")
+    if "default" not in kwargs:
+        ok = z3.Function("JsonSerializable", V, *[a.sort() for a in arrs[:6]], core.B)(obj, *arrs[:6])
+        if not st.decide(ok, "json-serializable"):
+            I.raise_(TypeError, origin=("json.dumps",))
+    return vstr(f(obj, *arrs))
+
+
+class PureLibMixin:
+    """ext models: json.dumps, hashlib.sha256(...).hexdigest(), uuid.uuid5, str.encode  (all pure, deterministic)"""
+
+    def sorted_with_key(self, I, args, kwargs):
+        """sorted(xs, key=...): modelled as a function of the *set* of elements (assumed: keys pairwise distinct)"""
+        st = I.st
+        dom = models.as_set_term(I, args[0])
+        n = fresh("card", core.I)
+        st.assume(n >= 0)
+        models.assume_lib("sorted(key=)", "sorted(xs, key=k) with pairwise distinct keys is a function of the set of elements")
+        return st.new_list(core.Sq(core.SortedArr(dom), n))
+
+    def ext_call(self, I, dotted, args, kwargs, star):
+        if dotted == "json.dumps":
+            return json_dumps_model(I, args, kwargs)
+        if dotted == "hashlib.sha256":
+            models.assume_lib("hashlib.sha256", "deterministic, collision-free on the inputs considered")
+            return V.obj(z3.Function("Sha256Obj", V, core.I)(I.lift(args[0]) if args else NONE))
+        if dotted == "uuid.uuid5":
+            models.assume_lib("uuid.uuid5", "deterministic function of (namespace, name)")
+            return V.obj(z3.Function("Uuid5Obj", V, V, core.I)(I.lift(args[0]), I.lift(args[1])))
+        if dotted == "uuid.UUID":
+            return V.obj(z3.Function("UuidOf", V, core.I)(I.lift(args[0])))
+        if dotted in ("uuid.uuid4", "uuid.uuid1", "time.time", "time.time_ns", "time.monotonic", "time.perf_counter", "os.getpid",
+                      "os.getcwd", "random.random", "datetime.datetime.now", "datetime.datetime.utcnow", "os.urandom", "socket.gethostname"):
+            I.st.reads.add(("ambient", dotted))
+            return fresh("ambient")
+        return super().ext_call(I, dotted, args, kwargs, star)
+
+    def obj_attr(self, I, v, name):
+        if name in ("hexdigest", "hex", "encode", "digest"):
+            return O.HMeth(v, name)
+        return super().obj_attr(I, v, name)
+
+    def obj_method_call(self, I, recv, name, args, kwargs, star):
+        if name in ("hexdigest", "hex"):
+            return vstr(z3.Function("HexOf", core.I, z3.StringSort())(V.oid(recv)))
+        return super().obj_method_call(I, recv, name, args, kwargs, star)
+
+
+def order_oracles_in(term):
+    """names of order-dependent symbols (dict orders, set/comprehension order oracles) a term depends on"""
+    out = set()
+    stack = [term]
+    seen = set()
+    while stack:
+        x = stack.pop()
+        if x.get_id() in seen:
+            continue
+        seen.add(x.get_id())
+        if z3.is_const(x) and x.decl().kind() == z3.Z3_OP_UNINTERPRETED:
+            nm = x.decl().name()
+            if nm.endswith(".dord") or nm.startswith(("setord", "compord", "ord_after", "ord!", "filt", "JsonOrdered")):
+                out.add(nm)
+        if z3.is_app(x) and x.decl().name() == "JsonOrdered":
+            out.add("JsonOrdered")
+        if z3.is_quantifier(x):
+            stack.append(x.body())
+        else:
+            stack.extend(x.children())
+    return out
